@@ -759,3 +759,41 @@ pub fn build(rng: &mut Rng, tier: u32) -> LiveBuilt {
         }),
     }
 }
+
+/// Family `cqueue_co` (defect F25): the poller is a COROUTINE and the arms send while it is entering its park, so that
+/// `EventSender::subscribe`'s `unpark` finds the poller's `wait_co` still empty, the poller's own `Park::subscribe`
+/// resumes it in place (`fast_wake_up`) and it runs the arm inside `poll()` on top of that frame. `src/park.rs` is in
+/// the filter: the perturbation can stall the sender inside `w.unpark()` (between `state.swap` and `wait_co.take`), i.e.
+/// between the wake-up and the end of `subscribe`, where the order "clear `wait_kernel`, then drop the blocker" matters:
+/// with the blocker dropped first, `Park::drop` (last reference) waits for the poller's subscribe frame, which waits for
+/// the arm, which spins in `send` on `wait_kernel` – two threads spin for ever. The spins load hooked atomics, so the
+/// hang shows as an event flood: the flood guard of `run_inproc` stops the log and the watchdog reports `hang`.
+pub fn build_co(rng: &mut Rng, tier: u32) -> LiveBuilt {
+    let n = 1 + rng.below(if tier > 0 { 4 } else { 3 }) as usize;
+    let style = if rng.chance(600) { Style::Go } else { Style::Macros };
+    let arms = (0..n)
+        .map(|_| ArmSpec {
+            rounds: 2 + rng.below(4) as u32,
+            top: match rng.below(4) {
+                0 | 1 => Top::Now,
+                2 => Top::Yield(rng.below(2) as u32),
+                _ => Top::Sleep(50 + rng.below(300)),
+            },
+            end: End::Normal,
+            end_round: 0,
+            remove_us: None,
+            feed: Feed::Pre,
+        })
+        .collect::<Vec<_>>();
+    let spec = Spec { style, poller_co: true, arms, polls: vec![], max_ok: usize::MAX, catch_inside: false, feed_gap_us: 0, drain_all: true };
+    let header = format!("family=cqueue_co arms={} poller=co style={}", n, if style == Style::Go { "go" } else { "macros" });
+    LiveBuilt {
+        header,
+        filter: vec!["src/cqueue.rs", "src/cancel.rs", "src/sync/mutex.rs", "src/sync/poison.rs", "src/park.rs"],
+        hang_ms: 6_000,
+        run: Box::new(move || {
+            install_hook();
+            run_inproc(spec)
+        }),
+    }
+}
